@@ -340,10 +340,11 @@ def run(ctx, R, tier):
                "no single key tuple found in one of the two routines (lookup %d, reset %d)" % (len(ckeys), len(rkeys)))
     # ... and it must be handed the registered object itself: a weak registration stores a weakref.ref in the registry, whose class is not the object's class (shared with C16-R6)
     from ..report import Rules as _Rules
+    from ..report import run_shared as _run_shared
     from . import c16 as _c16
     R16 = _Rules("C16")
     try:
-        _c16.run(ctx, R16, tier)
+        _run_shared(ctx, _c16, R16, tier)
     except AnalysisError as _shared_x:
         # the other property's own anchors are gone on this tree: its check reports that; what it produced before is still shared
         R.note("obligations shared from C16 are incomplete on this tree: %s" % _shared_x)
